@@ -334,3 +334,50 @@ func (e *Engine) deterministicScan(fn *ssa.Function, args []string) string {
 	}
 	return ""
 }
+
+// freeVarReadOnly reports whether a closure uses a captured variable only by
+// loading from it (directly, or by handing it to nested closures that do the
+// same). Any other use — a store, taking a field address that is stored to,
+// passing the pointer on — counts as a possible write.
+func freeVarReadOnly(fv *ssa.FreeVar, depth int) bool {
+	if depth > 4 || fv.Referrers() == nil {
+		return false
+	}
+	var ok func(v ssa.Value, depth int) bool
+	ok = func(v ssa.Value, depth int) bool {
+		refs := v.Referrers()
+		if refs == nil {
+			return false
+		}
+		for _, in := range *refs {
+			switch x := in.(type) {
+			case *ssa.UnOp:
+				if x.Op != token.MUL || x.X != v {
+					return false
+				}
+			case *ssa.FieldAddr:
+				// address of a field of the captured struct: same rules
+				if x.X != v || !ok(x, depth) {
+					return false
+				}
+			case *ssa.MakeClosure:
+				cfn, isFn := x.Fn.(*ssa.Function)
+				if !isFn {
+					return false
+				}
+				for i, b := range x.Bindings {
+					if b == v {
+						if i >= len(cfn.FreeVars) || !freeVarReadOnly(cfn.FreeVars[i], depth+1) {
+							return false
+						}
+					}
+				}
+			case *ssa.DebugRef:
+			default:
+				return false
+			}
+		}
+		return true
+	}
+	return ok(fv, depth)
+}
